@@ -12,6 +12,7 @@ import Driver.Cast
 import Driver.Std
 import Driver.Line
 import Driver.StreamCase
+import Driver.PathCase
 
 open Jl
 
@@ -25,6 +26,8 @@ def runLine (line : String) : Driver.Result :=
   | ["accept", _, ti, line, ext, impl, go] => Driver.Line.runAccept ti line ext impl go
   | ["stream", prop, ti, to, proc, reader, writer, ext, impl] =>
     Driver.StreamCase.runStream prop ti to proc reader writer ext impl
+  | ["path", _, row, op, path, val, ext, impl] => Driver.PathCase.runPath row op path val ext impl
+  | ["probe", _, what, impl] => Driver.PathCase.runProbe what impl
   | ["scan", sizes, reader, impl] => Driver.StreamCase.runScan sizes reader impl
   | ["emit", prop, to, val, ext, impl] => Driver.Line.runEmit prop to val ext impl
   | ["std", fn, args, impl] => Driver.Std.runCase fn args impl
